@@ -1,4 +1,6 @@
 """Reusable rule templates over Body CFGs (the A-catalogue of DESIGN.md section 3)."""
+import re
+
 from .prog import P, Callee, op_place, op_const, const_str, const_int, const_bool
 
 TERM = "term"
@@ -973,3 +975,125 @@ def discr_switches_of(body, local):
                 if dp[0] in aliases and not [p for p in dp[1] if p != "*"]:
                     out.append((b, t))
     return out
+
+
+def const_flow(body, place, depth=6):
+    """the constants that can reach `place` - a bool or field-less enum flag (a local, or a component of a tuple of
+    flags) all of whose definitions are constants, possibly through copies: [(value, defining block)] with value a
+    bool or a variant name; None when some definition is not a constant (the place is not a flag)"""
+    if depth == 0:
+        return None
+    l, proj = place[0], [p for p in place[1] if p != "*"]
+    if len(proj) > 1 or (proj and not re.fullmatch(r"\.\d+", str(proj[0]))):
+        return None
+    defs = body.defs_of(l)
+    if not defs:
+        return None
+    out = []
+    for d in defs:
+        if d[1] == TERM:
+            return None
+        rv = d[2]
+        if proj:
+            n = int(str(proj[0])[1:])
+            if rv["k"] != "aggr" or rv.get("ak") != "tuple" or n >= len(rv["ops"]):
+                return None
+            o = rv["ops"][n]
+        elif rv["k"] == "use":
+            o = rv["op"]
+        elif rv["k"] == "aggr" and rv.get("ak") == "adt" and not rv.get("ops") and rv.get("variant"):
+            out.append((rv["variant"], d[0]))
+            continue
+        else:
+            return None
+        k = op_const(o)
+        if k is not None:
+            if "bool" not in k:
+                return None
+            out.append((bool(k["bool"]), d[0]))
+            continue
+        pl = op_place(o)
+        if pl is None:
+            return None
+        sub = const_flow(body, pl, depth - 1)
+        if sub is None:
+            return None
+        out += sub
+    return out
+
+
+def _promoted_variant(body, k):
+    """variant name of a promoted constant `&Enum::Variant`"""
+    if not isinstance(k, dict) or "promoted" not in k:
+        return None
+    try:
+        pb = body.promoted[k["promoted"]]
+    except (IndexError, TypeError):
+        return None
+    for x in range(pb.n):
+        for st in pb.blocks[x]["s"]:
+            rv = st.get("rv") or {}
+            if rv.get("k") == "aggr" and rv.get("ak") == "adt" and not rv.get("ops") and rv.get("variant"):
+                return rv["variant"]
+    return None
+
+
+def flag_test(body, sb):
+    """if the switch ending block `sb` tests a constant flag (const_flow): {"flow": [(value, def block)],
+    "edge_values": {target block: set of flag values with which that edge is taken}}; None otherwise.
+    Understands `if flag`, `if !flag`, `flag == Enum::V` / `!=` (derived PartialEq on a field-less enum) and
+    `match flag { .. }`."""
+    t = body.term(sb)
+    if t["k"] != "switch":
+        return None
+    o = origin(body, t["op"], carriers={})
+    neg = False
+    if o[0] == "rv" and o[1].get("k") == "unop" and o[1].get("op") == "Not":
+        neg = True
+        o = origin(body, o[1]["a"], carriers={})
+    tt, ft = switch_targets_bool(t)
+    if o[0] == "call" and "fn" in o[2] and Callee(o[2]["fn"]).decl_path in ("std::cmp::PartialEq::eq", "std::cmp::PartialEq::ne") and len(o[2]["args"]) == 2 and tt is not None and ft is not None:
+        sides = []
+        for a in o[2]["args"]:
+            oa = origin(body, a, carriers={})
+            if oa[0] == "const":
+                sides.append(("const", _promoted_variant(body, oa[1])))
+            else:
+                ch = body.chase(a)
+                pl = ch[1] if ch[0] == "place" else (oa[1] if oa[0] in ("unknown", "field") and isinstance(oa[1], tuple) else None)
+                fl = const_flow(body, pl) if pl is not None else None
+                sides.append(("flag", fl))
+        consts = [v for kk, v in sides if kk == "const" and v is not None]
+        flags = [v for kk, v in sides if kk == "flag" and v is not None]
+        if len(consts) == 1 and len(flags) == 1:
+            allv = {v for v, _b in flags[0]}
+            eq = Callee(o[2]["fn"]).decl_path.endswith("::eq") != neg
+            hit = {consts[0]} & allv
+            return {"flow": flags[0], "edge_values": {tt: (hit if eq else allv - hit), ft: (allv - hit if eq else hit)}}
+        return None
+    sd = switch_discr_place(body, sb)
+    if sd is not None:
+        fl = const_flow(body, sd[0])
+        if fl is None or any(isinstance(v, bool) for v, _b in fl):
+            return None
+        return None  # a `match` on the flag: edges by variant index are not needed by the rules so far
+    ch = body.chase(t["op"]) if not neg else ("?",)
+    pl = op_place(t["op"]) if not neg else None
+    if neg:
+        pl = op_place(o[1].get("a")) if False else None
+    src = None
+    if o[0] in ("unknown", "field", "arg") or o[0] == "rv":
+        pass
+    # a bool flag: the switch operand is (a copy of) a place all of whose definitions are constants
+    p0 = op_place(t["op"])
+    cand = []
+    if p0 is not None:
+        cand.append(p0)
+        c2 = body.chase(t["op"])
+        if c2[0] == "place":
+            cand.append(c2[1])
+    for c in cand:
+        fl = const_flow(body, c)
+        if fl is not None and all(isinstance(v, bool) for v, _b in fl) and tt is not None and ft is not None:
+            return {"flow": fl, "edge_values": {tt: {True}, ft: {False}}}
+    return None
